@@ -27,6 +27,8 @@ def first_true_sites(root):
     for n in walk_no_nested(root):
         if isinstance(n, ast.Call) and call_name(n) in ("np.argmax", "numpy.argmax") and n.args and isinstance(n.args[0], ast.Compare):
             out.append((n, "argmax", n.args[0]))
+        if isinstance(n, ast.Call) and isinstance(n.func, ast.Attribute) and n.func.attr == "argmax" and not n.args and isinstance(n.func.value, ast.Compare):
+            out.append((n, "argmax", n.func.value))  # (mask).argmax()
         if isinstance(n, ast.Subscript) and isinstance(n.slice, ast.Constant) and n.slice.value == 0:
             v = n.value
             if isinstance(v, ast.Subscript) and isinstance(v.slice, ast.Constant) and v.slice.value == 0:
@@ -79,78 +81,68 @@ def run(ctx):
     ctx.require(n_normal == 1, "expected exactly one `return threshold`")
     # n comes from the chosen method
     calls = {call_name(c): nid for nid, c in fa.find_expr(lambda e: isinstance(e, ast.Call) and (call_name(e) or "").startswith("self.determine_threshold_"))}
+    # ... or selected into a local first and called once (`fn = self.determine_threshold_x; n = fn(samples, ...)`)
+    for nid, a_ in fa.find_expr(lambda e: isinstance(e, ast.Attribute) and isinstance(e.ctx, ast.Load) and e.attr.startswith("determine_threshold_") and src(e.value) == "self"):
+        calls.setdefault(src(a_), nid)
     ctx.ob("R-SIB", "C17.1", f, "n is produced by the selected threshold method on the same samples", set(calls) == {"self.determine_threshold_quantile", "self.determine_threshold_entropy"}, f"{sorted(calls)}")
     for m in ("determine_threshold_quantile", "determine_threshold_entropy"):
         g = ctx.fn(f"{INS}.{m}")
         rr = [n for n in walk_no_nested(g.node) if isinstance(n, ast.Return)]
-        ctx.ob("R-SIB", "C17.1", g, "threshold method returns an integer index", len(rr) == 1 and _ms("return int($k)", rr[0]) is not None, f"`{src(rr[0]) if rr else None}`")
+        ctx.ob("R-SIB", "C17.1", g, "threshold method returns an integer index", bool(rr) and all(_ms("return int($k)", r_) is not None for r_ in rr), f"`{src(rr[0]) if rr else None}`")
     ctx.floor("C17.1", 6)
 
     # ---- C17.2 clamps ---------------------------------------------------------
-    size = f"{sp}.size"
-    ifs = [n for n in fa.nodes() if n.kind == "if"]
+    # The function is compared, path by path, with a reference implementation of the documented clamp semantics: both
+    # are reduced to canonical path signatures (atomic guard literals with linear comparisons moved to one side,
+    # short-circuit conditions expanded, locals substituted, helper calls already inlined by the program model) and the
+    # two sets must coincide.  The number chosen by the threshold method is the symbol N0 on both sides.
+    import copy as _copy
+    from ..summ import signatures as _sigs
 
-    def find_if(pred):
-        out = [n for n in ifs if pred(n.ast.test)]
-        return out[0] if len(out) == 1 else None
+    class _Abs(ast.NodeTransformer):
+        def visit_Call(self, n_):
+            self.generic_visit(n_)
+            if "determine_threshold_" in src(n_.func) or src(n_.func) in _dispatch_names:
+                return ast.Name(id="N0", ctx=ast.Load())
+            return n_
 
-    # zero handling
-    ones = [nid for nid in fa.find(lambda s_: isinstance(s_, ast.Assign) and canon(s_, rename=REN) == "n = 1")]
-    okz = len(ones) == 1 and {nfact(f"{N} == 0"), nfact("self.min_remove < 1", False)} <= set(nfacts(guard_facts(fa, ones[0])))
-    ctx.ob("R-LIN", "C17.2", f, "a method choice of zero removals becomes one removal when min_remove >= 1", okz, "")
-    a = find_if(lambda t: _lin_cmp(t, {size: 1, N: -1}, "Lt", {"self.min_samples": 1}))
-    ctx.require(a is not None, "min_samples guard `(samples.size - n) < self.min_samples` not found")
-    asg = [s for s in a.ast.body if isinstance(s, ast.Assign) and src(s.targets[0]) == N]
-    oka = False
-    detail = ""
-    if len(asg) == 1 and isinstance(asg[0].value, ast.Call) and call_name(asg[0].value) == "max" and len(asg[0].value.args) == 2:
-        args = asg[0].value.args
-        zero = [x for x in args if canon(x) == "0"]
-        other = [x for x in args if canon(x) != "0"]
-        if len(zero) == 1 and len(other) == 1:
-            kept = lin_sub(linear(_name(size)), linform(other[0]))
-            oka = lin_eq(kept, {"self.min_samples": 1})
-            detail = f"kept = size - n = {({k: str(v) for k, v in kept.items()})}"
-    ctx.ob("R-LIN", "C17.2", f, "min_samples clamp: if fewer than min_samples would be kept, exactly min_samples are kept (n := max(0, size - min_samples))", oka, detail or f"`{src(asg[0]) if asg else None}`")
-    # elif branch: min_remove
-    b_ok = len(a.ast.orelse) == 1 and isinstance(a.ast.orelse[0], ast.If) and _lin_cmp(a.ast.orelse[0].test, {N: 1}, "Lt", {"self.min_remove": 1})
-    b_asg = [s for s in a.ast.orelse[0].body if isinstance(s, ast.Assign)] if b_ok else []
-    ctx.ob("R-LIN", "C17.2", f, "otherwise (elif) at least min_remove are removed: n < min_remove => n := min_remove", b_ok and len(b_asg) == 1 and canon(b_asg[0], rename=REN) == "n = self.min_remove", f"`{src(a.ast.orelse[0].test) if a.ast.orelse else None}`")
-    # cap
-    c = None
-    for n in ifs:
-        cj = [canon(e) for e, t in conjuncts(n.ast.test, True)]
-        if "self.draw_constant" in cj and "self.max_samples" in cj:
-            c = n
-    ctx.require(c is not None, "max_samples cap branch not found")
-    cj = conjuncts(c.ast.test, True)
-    cond = [e for e, t in cj if isinstance(e, ast.Compare)]
-    okc = len(cond) == 1 and _lin_cmp(cond[0], {size: 1, N: -1, "self.nlive": 1}, "Gt", {"self.max_samples": 1})
-    casg = [s for s in c.ast.body if isinstance(s, ast.Assign) and src(s.targets[0]) == N]
-    nxt = None
-    if len(casg) == 1:
-        nxt = lin_add(lin_sub(linear(_name(size)), linform(casg[0].value)), {"self.nlive": 1})
-    ctx.ob("R-LIN", "C17.2", f, "cap guard: draw_constant and max_samples and (size - n) + nlive > max_samples", okc and len(cj) == 3, f"`{src(c.ast.test)}`")
-    ctx.ob("R-LIN", "C17.2", f, "cap clamp: after it the next level holds exactly max_samples: (size - n) + nlive = max_samples", nxt is not None and lin_eq(nxt, {"self.max_samples": 1}), f"`{src(casg[0]) if casg else None}`")
-    # order: zero -> A/B -> cap -> threshold
-    order_ok = len(ones) == 1 and fa.cfg.can_follow(ones[0], a.id) and not fa.cfg.can_follow(a.id, ones[0]) and fa.dominates(a.id, c.id) and fa.dominates(c.id, th[0]) and not fa.cfg.in_loop(a.id)
-    ctx.ob("R-ORDER", "C17.2", f, "clamps are applied in the order zero-fix, min_samples/min_remove, max_samples cap, then the threshold is read", order_ok, "")
-    recognised = set()
-    for st in (asg + b_asg + casg):
-        recognised.add(id(st))
-    for nid_ in ones:
-        recognised.add(id(fa.stmt(nid_)))
-    extra = []
-    for node in fa.nodes():
-        st = node.ast
-        if node.kind == "stmt" and isinstance(st, (ast.Assign, ast.AugAssign)) and src(st.targets[0] if isinstance(st, ast.Assign) else st.target) == N:
-            if id(st) in recognised:
-                continue
-            if isinstance(st, ast.Assign) and isinstance(st.value, ast.Call) and (call_name(st.value) or "").startswith("self.determine_threshold_"):
-                continue
-            extra.append(src(st))
-    ctx.ob("R-LIN", "C17.2", f, "n is modified only by the method choice and the three clamps", not extra, f"unrecognised assignments to n: {extra}")
-    ctx.floor("C17.2", 7)
+        def visit_Name(self, n_):
+            return ast.Name(id="samples", ctx=n_.ctx) if n_.id == sp else n_
+
+    # a dispatch through a local (`fn = self.determine_threshold_x; n = fn(samples, **kw)`) is the method call as well
+    _dispatch_names = {s_.targets[0].id for s_ in walk_no_nested(f.node) if isinstance(s_, ast.Assign) and len(s_.targets) == 1 and isinstance(s_.targets[0], ast.Name) and isinstance(s_.value, ast.Attribute) and "determine_threshold_" in s_.value.attr}
+    _ab = lambda e_: _Abs().visit(_copy.deepcopy(e_)) if e_ is not None else None
+    _is_dispatch = lambda t_: "method" in t_ or any(d_ in t_ for d_ in _dispatch_names)
+    REF = (
+        "def ref(self, samples):\n"
+        "    n = N0\n"
+        "    if n == 0:\n"
+        "        if self.min_remove < 1:\n"
+        "            return 0\n"
+        "        else:\n"
+        "            n = 1\n"
+        "    if (samples.size - n) < self.min_samples:\n"
+        "        n = max(0, samples.size - self.min_samples)\n"
+        "    elif n < self.min_remove:\n"
+        "        n = self.min_remove\n"
+        "    if self.draw_constant and self.max_samples and ((samples.size - n) + self.nlive) > self.max_samples:\n"
+        "        n = samples.size - self.max_samples + self.nlive\n"
+        "    return samples[n]['logL']\n"
+    )
+    ref_sigs = {s_ for s_ in _sigs(ast.parse(REF).body[0], canon) if s_[3] == "return"}
+    try:
+        code_sigs = {s_ for s_ in _sigs(f.node, canon, abstract=_ab, drop=_is_dispatch) if s_[3] == "return"}
+    except ValueError as e_:
+        raise AnalysisError(f"determine_log_likelihood_threshold: {e_} (ANALYSIS-INCOMPLETE)")
+
+    def _show(s_):
+        return " and ".join(sorted(s_[0])) + f"  =>  {s_[2]}"
+
+    for s_ in sorted(ref_sigs, key=_show):
+        ctx.ob("R-SIB", "C17.2", f, "clamp semantics (zero-fix, then min_samples else min_remove, then the max_samples cap, then samples[n]['logL']): " + _show(s_)[:230], s_ in code_sigs, "this case of the documented behaviour has no matching path in the code")
+    extra_ = sorted(code_sigs - ref_sigs, key=_show)
+    ctx.ob("R-SIB", "C17.2", f, "the code has no path outside the documented clamp semantics", not extra_, "; ".join(_show(s_)[:200] for s_ in extra_[:3]))
+    ctx.floor("C17.2", 20)
 
     # ---- C17.3 training floor ----------------------------------------------------
     g = ctx.fn(INS + ".add_new_proposal")
@@ -162,8 +154,9 @@ def run(ctx):
     inl_g = single_assignments(g.node)
     s_st = [b_["v"] for n_, b_ in _fs("self.current_training_samples = $v", g.node)]
     q_st = [b_["v"] for n_, b_ in _fs("self.current_training_log_q = $v", g.node)]
-    oks_ = len(s_st) == 1 and _mx2(f"self.training_samples.samples[{START}:].copy()", s_st[0], inline=inl_g) is not None
-    okq_ = len(q_st) == 1 and _mx2(f"self.training_samples.log_q[{START}:, :].copy()", q_st[0], inline=inl_g) is not None
+    STARTS = (START, START.replace("self.training_samples.samples.size", "len(self.training_samples.samples)"))
+    oks_ = len(s_st) == 1 and any(_mx2(f"self.training_samples.samples[{S_}:].copy()", s_st[0], inline=inl_g) is not None for S_ in STARTS)
+    okq_ = len(q_st) == 1 and any(_mx2(f"self.training_samples.log_q[{S_}:, :].copy()", q_st[0], inline=inl_g) is not None for S_ in STARTS)
     ctx.ob("R-SIB", "C17.3", g, "training starts at min(first sample at/above the threshold, size - min_samples): at least min_samples are used", oks_, f"`{src(s_st[0])[:120] if s_st else None}`")
     ctx.ob("R-SIB", "C17.3", g, "training samples and their density rows are the same tail slice [n_train:]", oks_ and okq_, f"`{src(q_st[0])[:120] if q_st else None}`")
     tr = [c for c in walk_no_nested(g.node) if isinstance(c, ast.Call) and call_name(c) == "self.proposal.train"]
@@ -253,12 +246,12 @@ _F = "nessai/samplers/importancesampler.py"
 MUTANTS = [
     {"id": "threshold-off-by-one", "file": _F, "old": '        threshold = samples[n]["logL"].copy()', "new": '        threshold = samples[n - 1]["logL"].copy()', "expect": "n-th of the samples"},
     {"id": "threshold-interpolated", "file": _F, "old": '        threshold = samples[n]["logL"].copy()', "new": '        threshold = 0.5 * (samples[n]["logL"] + samples[n - 1]["logL"])', "expect": "n-th of the samples"},
-    {"id": "min-samples-clamp-off-by-one", "file": _F, "old": "            n = max(0, samples.size - self.min_samples)\n", "new": "            n = max(0, samples.size - self.min_samples + 1)\n", "expect": "min_samples clamp"},
-    {"id": "min-samples-guard-le", "file": _F, "old": "        if (samples.size - n) < self.min_samples:", "new": "        if (samples.size - n) < self.min_samples - 1:", "expect": "ANALYSIS"},
-    {"id": "min-remove-not-elif", "file": _F, "old": "        elif n < self.min_remove:\n", "new": "        if n < self.min_remove:\n", "expect": "otherwise (elif)"},
-    {"id": "min-remove-clamp-value", "file": _F, "old": "            n = self.min_remove\n", "new": "            n = self.min_remove - 1\n", "expect": "at least min_remove"},
-    {"id": "cap-ignores-nlive", "file": _F, "old": "            n = samples.size - self.max_samples + self.nlive\n", "new": "            n = samples.size - self.max_samples\n", "expect": "cap clamp"},
-    {"id": "cap-before-min-samples", "file": _F, "edits": [(_F, "        if (\n            self.draw_constant\n            and self.max_samples\n            and ((samples.size - n) + self.nlive) > self.max_samples\n        ):\n            n = samples.size - self.max_samples + self.nlive\n            logger.warning(\n                \"Next level would have more than max samples, \"\n                f\"removing {n} samples\"\n            )\n\n", ""), (_F, "        if (samples.size - n) < self.min_samples:\n            logger.warning(\n                f\"Cannot remove {n} from", "        if (\n            self.draw_constant\n            and self.max_samples\n            and ((samples.size - n) + self.nlive) > self.max_samples\n        ):\n            n = samples.size - self.max_samples + self.nlive\n        if (samples.size - n) < self.min_samples:\n            logger.warning(\n                f\"Cannot remove {n} from")], "expect": "clamps are applied in the order"},
+    {"id": "min-samples-clamp-off-by-one", "file": _F, "old": "            n = max(0, samples.size - self.min_samples)\n", "new": "            n = max(0, samples.size - self.min_samples + 1)\n", "expect": "clamp semantics"},
+    {"id": "min-samples-guard-le", "file": _F, "old": "        if (samples.size - n) < self.min_samples:", "new": "        if (samples.size - n) < self.min_samples - 1:", "expect": "clamp semantics"},
+    {"id": "min-remove-not-elif", "file": _F, "old": "        elif n < self.min_remove:\n", "new": "        if n < self.min_remove:\n", "expect": "clamp semantics"},
+    {"id": "min-remove-clamp-value", "file": _F, "old": "            n = self.min_remove\n", "new": "            n = self.min_remove - 1\n", "expect": "clamp semantics"},
+    {"id": "cap-ignores-nlive", "file": _F, "old": "            n = samples.size - self.max_samples + self.nlive\n", "new": "            n = samples.size - self.max_samples\n", "expect": "clamp semantics"},
+    {"id": "cap-before-min-samples", "file": _F, "edits": [(_F, "        if (\n            self.draw_constant\n            and self.max_samples\n            and ((samples.size - n) + self.nlive) > self.max_samples\n        ):\n            n = samples.size - self.max_samples + self.nlive\n            logger.warning(\n                \"Next level would have more than max samples, \"\n                f\"removing {n} samples\"\n            )\n\n", ""), (_F, "        if (samples.size - n) < self.min_samples:\n            logger.warning(\n                f\"Cannot remove {n} from", "        if (\n            self.draw_constant\n            and self.max_samples\n            and ((samples.size - n) + self.nlive) > self.max_samples\n        ):\n            n = samples.size - self.max_samples + self.nlive\n        if (samples.size - n) < self.min_samples:\n            logger.warning(\n                f\"Cannot remove {n} from")], "expect": "clamp semantics"},
     {"id": "training-floor-dropped", "file": _F, "old": "            self.training_samples.samples.size - self.min_samples,\n        )", "new": "            self.training_samples.samples.size,\n        )", "expect": "training starts at"},
     {"id": "training-logq-misaligned", "file": _F, "old": "        self.current_training_log_q = self.training_samples.log_q[\n            n_train:, :\n        ].copy()", "new": "        self.current_training_log_q = self.training_samples.log_q[\n            n_train + 1 :, :\n        ].copy()", "expect": "same tail slice"},
     {"id": "quantile-first-true-raises", "file": _F, "old": "        n = np.argmax(a >= cutoff)", "new": "        n = np.where(a >= cutoff)[0][0]", "expect": "first-true search"},
